@@ -102,6 +102,16 @@ def _(E, m, a, c0):
     if E.branch((a[1] + have) * size > ISIZE_MAX): return err(Opaque('TryReserveError'))
     k = E.choose([z3.BoolVal(True), z3.BoolVal(True)])
     return ok(UNIT) if k == 0 else err(Opaque('TryReserveError'))
+@pattern(r'Vec::<.*>::capacity|Vec::capacity|' + STR + r'::capacity')
+def _(E, m, a, c0):
+    # the capacity is allocator state the model does not track: any value >= len
+    v = E.deref(a[0]); n = len(v.fields) if isinstance(v, Seq) else 0
+    E._olen = getattr(E, '_olen', 0) + 1
+    c = z3.Int(f'capacity{E._olen}'); E.assume(c >= n, c <= 2**62); return c
+@pattern(r'Vec::<.*>::(shrink_to_fit|shrink_to)|Vec::(shrink_to_fit|shrink_to)|' + STR + r'::(shrink_to_fit|shrink_to)')
+def _(E, m, a, c0):
+    # shrinking reallocates: the whole buffer is copied (an O(n) step, logged like a clone of the payload)
+    E.log.append(('realloc', 'Vec::shrink')); return UNIT
 @pattern(r'Vec::<.*>::resize|Vec::resize')
 def _(E, m, a, c0):
     v = _seq(E, a[0]); n = len(v.fields)
@@ -166,10 +176,24 @@ def _(E, m, a, c0):
     if not isinstance(f, (Closure, FnItem)): return NotImplemented
     return E.call_closure(f, list(a[1].fields) if isinstance(a[1], Tup) else [a[1]])
 
+# the provided method PartialEq::ne of a crate type: the negation of its eq
+@pattern(r'<((?:[a-z_]\w*::)*[A-Z]\w*(?:<.*>)?) as PartialEq(<.*>)?>::ne')
+def _(E, m, a, c0):
+    r = E.call(None, None, f'<{m.group(1)} as PartialEq{m.group(2) or ""}>::eq', list(a), [None] * len(a))
+    return z3.Not(r)
+@pattern(r'(?:std::collections::hash_map::)?OccupiedEntry::key')
+def _(E, m, a, c0):
+    e = E.deref(a[0]); mr, i = e.fields; c, p = E.canon(mr.cell, list(mr.path) + [0, i, 0]); return Ref(c, p)
+@pattern(r'<.* as Iterator>::(min_by_key|max_by_key)')
+def _(E, m, a, c0):
+    # only used to pick a name for a "did you mean" hint inside an (opaque) error message: any element
+    xs = rest(E, a[0]); return opt(xs[0]) if xs else opt()
+
 # RefCell guards: a guard is represented by the reference to the cell's content
 @pattern(r'<(?:std::cell::)?Ref(Mut)?<.*> as Deref(Mut)?>::deref(_mut)?')
 def _(E, m, a, c0):
-    inner = E.deref(a[0]); return inner if isinstance(inner, Ref) else a[0]
+    inner = E.read(a[0].cell, a[0].path) if isinstance(a[0], Ref) else a[0]          # one level: the guard itself is a reference
+    return inner if isinstance(inner, Ref) else a[0]
 
 # enum constructors of std used as function values (`.map(Ok)`, `.map(Some)`)
 @pattern(r'(?:std::result::)?Result::(Ok|Err)|(?:std::option::)?Option::(Some)')
